@@ -10,6 +10,7 @@ import (
 	"context"
 	"fmt"
 	"math/rand"
+	"sort"
 
 	"0chain.net/chaincore/block"
 	"0chain.net/chaincore/transaction"
@@ -117,6 +118,23 @@ func copySet(s *block.StateChange) *block.StateChange {
 	t.Nodes = cloneNodes(s.Nodes)
 	t.DeadNodes = cloneNodes(s.DeadNodes)
 	return t
+}
+
+// sortSet orders the nodes (and their dead counterparts) by hash.
+func sortSet(s *block.StateChange) {
+	idx := make([]int, len(s.Nodes))
+	for i := range idx {
+		idx[i] = i
+	}
+	sort.Slice(idx, func(a, b int) bool { return s.Nodes[idx[a]].GetHash() < s.Nodes[idx[b]].GetHash() })
+	nodes, dead := make([]util.Node, len(idx)), make([]util.Node, len(idx))
+	for k, i := range idx {
+		nodes[k] = s.Nodes[i]
+		if i < len(s.DeadNodes) {
+			dead[k] = s.DeadNodes[i]
+		}
+	}
+	s.Nodes, s.DeadNodes = nodes, dead
 }
 
 func indexOfType(ns []util.Node, r *rand.Rand, want func(util.Node) bool) int {
@@ -306,6 +324,7 @@ func walkState(s util.MerklePatriciaTrieI) walk {
 
 func (d *drv) trace(id int, a common.Args) {
 	w := d.w
+	w.Now = 1700000000 // same block times (hence the same node hashes) whether or not other traces ran before
 	d.rc.TraceID = id - 1
 	d.rc.Reset(rec.M{"family": "statesync", "id": id, "seed": a.Seed, "steps": a.Steps}, rec.M{"nonces": w.InitNonces(w.Genesis.ClientState)})
 	// two consecutive executed blocks on genesis
@@ -324,6 +343,7 @@ func (d *drv) trace(id int, a common.Args) {
 		if err != nil {
 			rec.Fatal("NewBlockStateChange: %v", err)
 		}
+		sortSet(s) // GetChanges lists the nodes in map order: fix an order so that the seeded choices repeat
 		sets[i] = s
 	}
 	for step := 0; step < a.Steps; step++ {
